@@ -165,6 +165,10 @@ impl<SVC: Service> CloudServer<SVC> {
 
     /// Generate a random integer in (0..255) for use in probabalistic decisions.
     fn randint(&self) -> Result<u8> {
+        #[cfg(gothenburgbitfactory_taskchampion_verif)]
+        if let Some(v) = crate::server::verif::next_rand() {
+            return Ok(v);
+        }
         use rand::SecureRandom;
         let mut randint = [0u8];
         rand::SystemRandom::new()
@@ -372,6 +376,12 @@ impl<SVC: Service> CloudServer<SVC> {
         }
 
         Ok(())
+    }
+
+    /// Verification hook: run cleanup now.
+    #[cfg(gothenburgbitfactory_taskchampion_verif)]
+    pub(in crate::server) async fn verif_cleanup(&mut self) -> Result<()> {
+        self.cleanup().await
     }
 
     /// Determine the snapshot version and filename.
